@@ -132,7 +132,15 @@ def one(run, cls, kw, idx, rng, phases):
       dom = [qz.finite_normal(x) for x in inputs] + [qz.abs_lt(x, 2.0 ** 20) for x in inputs]
       if shape:
         dom += [ir.L("(or (fp.isZero {0}) (fp.geq (fp.abs {0}) %s))" % ir.fp_lit(2.0 ** -20), x) for x in inputs]
-      v = equiv.decide(run, oid, b, outsA, outsB, inputs, dom, confirm, meta, timeout=600 if run.quick() else 1800)
+      v = equiv.decide(run, oid, b, outsA, outsB, inputs, dom, confirm, meta, fp=False)
+      if v.kind == "inconclusive":
+        # exact miter, discharged later on the pool together with all the others
+        run.obls.pop()
+        res_smt = equiv.fp_miter_text(b, outsA, outsB, dom)
+        o = run.add(oid, res_smt, meta=meta, timeout=600 if run.quick() else 1800)
+        o.confirm, o.sig = confirm, dict(clause="function", route=route, cls=cls, omitted=",".join(omitted_keys(cls, kw, q)))
+        o.cfg, o.inputs = cfg, [n.attr for n in inputs]
+        continue
       if v.kind == "different":
         run.violation(dict(clause="function", route=route, cls=cls, omitted=",".join(omitted_keys(cls, kw, q))), dict(cfg=cfg, how=v.how, **v.detail),
                       dict(clause="function", cls=cls, kw=kw, route=route, phase=phase, x=v.detail.get("x")))
@@ -199,6 +207,23 @@ def run(tier, seed):
       import traceback
       traceback.print_exc()
       r.inconclusive_("harness error on %s: %r" % (qz.cfg_str(cls, kw), e))
+  r.discharge()
+  for o in r.obls:
+    if getattr(o, "confirm", None) is None or o.result is None:
+      continue
+    if o.result.verdict == "unsat":
+      continue
+    if o.result.verdict == "sat":
+      w = {n: float(ir.bits_f32(o.result.model.get(n + "_b", 0))) for n in o.inputs}
+      qz.set_learning_phase(o.meta.get("phase", 0))
+      ok, detail = o.confirm(w)
+      if ok:
+        r.violation(o.sig, dict(cfg=o.cfg, how="fp-miter", **detail), dict(clause="function", cls=o.meta["cls"], kw=o.meta["kw"], route=o.meta["route"],
+                                                                        phase=o.meta.get("phase", 0), x=detail.get("x")))
+      else:
+        r.inconclusive_("%s %s: miter counterexample does not reproduce: %s" % (o.cfg, o.meta["route"], str(detail)[:300]))
+    else:
+      r.inconclusive_("%s %s: solver answered %s" % (o.cfg, o.meta["route"], o.result.verdict))
   qz.set_learning_phase(0)
   obls = [o for o in r.obls if not o.twin]
   structural = sum(1 for o in obls if o.result is not None and o.result.solver == "hash-consing")
